@@ -95,18 +95,20 @@ func issuesKey(is []e3Issue) string {
 var e3Runs int
 
 // e3RestoreGlobals: the package-level variables of the package under test are put back to the
-// values they had before the first execution of this process, so that no execution sees state
-// left behind by an earlier one (a lazily built global, a process-wide cache or pool).
+// values they had when this process started (before the harness served a single request: the
+// snapshot is taken by an init function), so that no execution sees state left behind by an
+// earlier one or by the harness's own measurements (a lazily built global, a process-wide cache
+// or pool). The harness's own settings of package-level switches are applied again afterwards.
 var e3Globals *vsched.GlobalSnapshot
 
-func init() { cleanPackageState = e3RestoreGlobals }
+func init() {
+	e3Globals = vsched.SnapshotGlobals(restful.VerifGlobals())
+	cleanPackageState = e3RestoreGlobals
+}
 
 func e3RestoreGlobals() {
-	if e3Globals == nil {
-		e3Globals = vsched.SnapshotGlobals(restful.VerifGlobals())
-		return
-	}
 	e3Globals.Restore()
+	e3Quiet()
 }
 
 // e3RunOne executes one schedule of a scenario and evaluates all oracles.
@@ -157,6 +159,10 @@ func e3RunOne(sc e3Scenario, prefix []int) (*vsched.Execution, []e3Issue, string
 func e3Explore(sc e3Scenario, deadline time.Time) e3Result {
 	start := time.Now()
 	res := e3Result{Name: sc.Name, BoundAsked: sc.Bound, BoundCompleted: -1}
+	// a throw-away instance first: whatever the scenario measures or memoises when it is first
+	// instantiated happens now, not inside the first execution
+	e3RestoreGlobals()
+	sc.New()
 	// determinism self-test: the default schedule twice
 	x1, i1, o1 := e3RunOne(sc, nil)
 	x2, i2, o2 := e3RunOne(sc, nil)
@@ -513,6 +519,8 @@ func e3Replay(prop string) replayFn {
 		for _, tier := range []string{"quick", "thorough"} {
 			for _, sc := range e3Scenarios[prop](tier) {
 				if sc.Name == v.Scenario {
+					e3RestoreGlobals()
+					sc.New() // throw-away instance, as in e3Explore
 					x, issues, out := e3RunOne(sc, v.Choices)
 					for i, t := range x.Trace {
 						fmt.Printf("  %3d %s\n", i, t)
